@@ -539,7 +539,7 @@ def check_deferred_application(ctx):
     prog = ctx.prog
     ctx.rule("R10", "data gathered from sections in any order is applied after all sections were read", "a tag that follows the section it concerns is ignored: shells keep the wrong size and a well-formed file is rejected or misread")
     f = prog.func("iodata.formats.molden._load_low")
-    adds = [n for n in f.own_nodes() if isinstance(n, ast.Call) and isinstance(n.func, ast.Attribute) and n.func.attr == "add" and isinstance(n.func.value, ast.Name)]
+    adds = [n for n in f.own_nodes() if isinstance(n, ast.Call) and isinstance(n.func, ast.Attribute) and n.func.attr in ("add", "update") and isinstance(n.func.value, ast.Name) and any(isinstance(b_, ast.Assign) and any(isinstance(t_, ast.Name) and t_.id == n.func.value.id for t_ in b_.targets) and isinstance(b_.value, ast.Call) and getattr(b_.value.func, "id", "") == "set" for b_ in f.own_nodes())]
     if not adds:
         raise AnalysisError("molden._load_low: cannot find the statements that record the pure-function tags")
     setname = adds[0].func.value.id
